@@ -256,6 +256,127 @@ TopClauses(o, q) ==
     <<"C20.zero_as_one", AllEff => AllTrue>>
   >>)
 
+(***************************************************************************)
+(* C09 / C10: the two paginators (traph.paginate_webentity_pages and        *)
+(* paginate_webentity_pagelinks), transcribed.  A token is (prefix index,   *)
+(* path); the path is logged as its base-4 digits (1 left, 2 child,        *)
+(* 3 right).  Prefix indices are 0-based in tokens, as in the code.        *)
+(***************************************************************************)
+(* every node met by the in-order traversal, prefix by prefix from prefix   *)
+(* index i0 (0-based), resuming inside the first one: [i, b, l, path]       *)
+RECURSIVE PagItems(_, _, _, _, _, _)
+PagItems(tr, ps, i, i0, hasResume, cmp) ==
+  IF i >= Len(ps) THEN <<>>
+  ELSE LET p == ps[i + 1]
+           n == LruNode(tr, p)
+           it == WeInOrder(tr, n, p, hasResume /\ i = i0, cmp)
+       IN [j \in 1..Len(it) |-> [i |-> i, b |-> it[j][1], l |-> it[j][2], path |-> it[j][3]]]
+          \o PagItems(tr, ps, i + 1, i0, hasResume, cmp)
+
+(* the request is answerable: every prefix from i0 on exists, and the token *)
+(* path can be walked from the first one                                    *)
+PagOK(tr, ps, i0, hasResume, cmp) ==
+  /\ \A i \in (i0 + 1)..Len(ps) : LruNode(tr, ps[i]) # 0
+  /\ (hasResume /\ i0 < Len(ps)) => PathWalkable(tr, LruNode(tr, ps[i0 + 1]), cmp)
+
+(* paginate_webentity_pages; k = 0 stands for page_count None *)
+PagPages(tr, ps, k, i0, hasResume, cmp, crawledOnly) ==
+  LET items == SelectSeq(PagItems(tr, ps, i0, i0, hasResume, cmp),
+                         LAMBDA e : tr[e.b].pg /\ (~crawledOnly \/ tr[e.b].cr))
+      Row(e) == [l |-> e.l, cr |-> tr[e.b].cr]
+  IN IF k = 0 \/ Len(items) <= k
+     THEN [done |-> TRUE, pages |-> [j \in 1..Len(items) |-> Row(items[j])], ti |-> 0, tpath |-> <<>>]
+     ELSE [done |-> FALSE, pages |-> [j \in 1..k |-> Row(items[j])],
+           ti |-> items[k].i, tpath |-> items[k].path]
+
+(* the outlinks of page block b kept by the switches, as the code lists them *)
+KeptLinks(tr, ls, b, lru, weid, internal, outbound) ==
+  LET w == Weighted(ls, tr[b].o)
+      keep == SelectSeq(w, LAMBDA e : LET tw == WindupWe(tr, e[1]) IN
+                                      (outbound /\ tw # weid) \/ (internal /\ tw = weid))
+  IN [j \in 1..Len(keep) |-> <<lru, Windup(tr, keep[j][1]), keep[j][2]>>]
+
+RECURSIVE PagLinksScan(_, _, _, _, _, _, _, _, _)
+PagLinksScan(tr, ls, items, j, weid, internal, outbound, k, acc) ==
+  \* acc: [n, links, li, lpath, has]  (has: some page was processed, i.e. last_path is set)
+  IF j > Len(items)
+  THEN [done |-> TRUE, n |-> acc.n, links |-> acc.links, ti |-> 0, tpath |-> <<>>, tnone |-> FALSE]
+  ELSE LET e == items[j] IN
+       IF tr[e.b].o = 0
+       THEN PagLinksScan(tr, ls, items, j + 1, weid, internal, outbound, k,
+                         [acc EXCEPT !.li = e.i, !.lpath = e.path, !.has = TRUE])
+       ELSE LET nl == KeptLinks(tr, ls, e.b, e.l, weid, internal, outbound) IN
+            IF nl # <<>> /\ k # 0 /\ acc.n + 1 > k
+            THEN [done |-> FALSE, n |-> acc.n, links |-> acc.links, ti |-> acc.li, tpath |-> acc.lpath,
+                  tnone |-> ~acc.has]
+            ELSE PagLinksScan(tr, ls, items, j + 1, weid, internal, outbound, k,
+                              [n |-> IF nl # <<>> THEN acc.n + 1 ELSE acc.n,
+                               links |-> acc.links \o nl, li |-> e.i, lpath |-> e.path, has |-> TRUE])
+
+PagLinks(tr, ls, ps, weid, internal, outbound, k, i0, hasResume, cmp) ==
+  LET items == SelectSeq(PagItems(tr, ps, i0, i0, hasResume, cmp), LAMBDA e : tr[e.b].pg) IN
+  PagLinksScan(tr, ls, items, 1, weid, internal, outbound, k,
+               [n |-> 0, links |-> <<>>, li |-> 0, lpath |-> <<>>, has |-> FALSE])
+
+(* ascending order of the pages of one prefix; prefixes in the given order *)
+RECURSIVE SortedSeq(_)
+SortedSeq(S) ==
+  IF S = {} THEN <<>>
+  ELSE LET m == CHOOSE x \in S : \A y \in S : x = y \/ LruLess(x, y) IN <<m>> \o SortedSeq(S \ {m})
+
+PagSessionClauses(post, o, S) ==
+  \* S.a: id ps k co hasTok ti tpath ; S.q.pag: answer + session bookkeeping
+  LET a == S.a  r == S.q.pag
+      want == IF PagOK(post.trie, a.ps, a.ti, a.hasTok, a.tpath)
+              THEN PagPages(post.trie, a.ps, a.k, a.ti, a.hasTok, a.tpath, a.co)
+              ELSE [done |-> FALSE, pages |-> <<>>, ti |-> 0, tpath |-> <<>>]
+      got == LSet(r.pages)
+      OwnIdx(p) == CHOOSE i \in 1..Len(a.ps) :
+                     /\ IsPrefixOf(a.ps[i], p)
+                     /\ \A k2 \in 1..Len(a.ps) : IsPrefixOf(a.ps[k2], p) => Len(a.ps[k2]) <= Len(a.ps[i])
+      all == r.sofar \o [j \in 1..Len(r.pages) |-> r.pages[j].l]
+  IN FailNamesQ(<<
+    <<"C09.nofail",   r.exc = "">>,
+    <<"bind.pag",     r.exc = "" => (r.done = want.done /\ r.pages = want.pages
+                                      /\ (~r.done => (r.ti = want.ti /\ r.tpath = want.tpath)))>>,
+    <<"C09.size",     r.exc = "" => (IF r.done THEN (a.k = 0 \/ Len(r.pages) <= a.k)
+                                      ELSE (Len(r.pages) = a.k /\ r.hasToken))>>,
+    <<"C09.counts",   r.exc = "" => (r.count = Len(r.pages)
+                                      /\ r.ccount = Cardinality({ j \in 1..Len(r.pages) : r.pages[j].cr }))>>,
+    <<"C09.marks",    \A j \in 1..Len(r.pages) :
+                         r.pages[j].cr = (r.pages[j].l \in CSet(o)) /\ (a.co => r.pages[j].cr)>>,
+    <<"C09.nodup",    Len(all) = Cardinality(SeqSet(all))>>,
+    <<"C09.order",    \A i \in 1..Len(all) : \A j \in 1..Len(all) : i < j =>
+                         \/ OwnIdx(all[i]) < OwnIdx(all[j])
+                         \/ (OwnIdx(all[i]) = OwnIdx(all[j]) /\ LruLess(all[i], all[j]))>>,
+    <<"C09.member",   got \subseteq LSet(r.wpages)>>,
+    <<"C09.complete", (r.exc = "" /\ r.done) =>
+                         { p \in SeqSet(r.through) : ~a.co \/ p \in SeqSet(r.cthrough) } \subseteq SeqSet(all)>>,
+    <<"C09.token",    r.tokenRoundTrip>>
+  >>)
+
+PagLinkSessionClauses(post, o, S) ==
+  LET a == S.a  r == S.q.pagl
+      want == IF PagOK(post.trie, a.ps, a.ti, a.hasTok, a.tpath)
+              THEN PagLinks(post.trie, post.ls, a.ps, a.id, a.int, a.out, a.k, a.ti, a.hasTok, a.tpath)
+              ELSE [done |-> FALSE, n |-> 0, links |-> <<>>, ti |-> 0, tpath |-> <<>>, tnone |-> FALSE]
+      Trip(x) == { <<x[j].s, x[j].t, x[j].w>> : j \in 1..Len(x) }
+      gotSeq == [j \in 1..Len(r.links) |-> <<r.links[j].s, r.links[j].t, r.links[j].w>>]
+      all == Trip(r.sofar) \cup Trip(r.links)
+      srcs == { r.links[j].s : j \in 1..Len(r.links) }
+  IN FailNamesQ(<<
+    <<"C10.resume",   r.exc = "">>,
+    <<"bind.pagl",    r.exc = "" => (r.done = want.done /\ gotSeq = want.links
+                                      /\ (~r.done => (~want.tnone /\ r.ti = want.ti /\ r.tpath = want.tpath)))>>,
+    <<"C10.size",     r.exc = "" => (r.nsrc = Cardinality(srcs) /\ r.nlinks = Len(r.links)
+                                      /\ (IF r.done THEN (a.k = 0 \/ r.nsrc <= a.k)
+                                           ELSE (r.nsrc = a.k /\ r.hasToken)))>>,
+    <<"C10.once",     Len(r.sofar) + Len(r.links) = Cardinality({ <<e[1], e[2]>> : e \in all })>>,
+    <<"C10.subset",   Trip(r.links) \subseteq Trip(r.full)>>,
+    <<"C10.union",    (r.exc = "" /\ r.done /\ r.quiet) => all = Trip(r.full)>>,
+    <<"C10.token",    r.tokenRoundTrip>>
+  >>)
+
 QueryClauses(post, rm, d, S) ==
   LET q == S.q  o == S.obs IN
      (IF Has(q, "lookup")  THEN LookupClauses(post, q) ELSE <<>>)
@@ -268,4 +389,6 @@ QueryClauses(post, rm, d, S) ==
   \o (IF Has(q, "pl")      THEN WeLinkClauses(o, q) ELSE <<>>)
   \o (IF Has(q, "hier")    THEN HierarchyClauses(o, q) ELSE <<>>)
   \o (IF Has(q, "top")     THEN TopClauses(o, q) ELSE <<>>)
+  \o (IF Has(q, "pag")     THEN PagSessionClauses(post, o, S) ELSE <<>>)
+  \o (IF Has(q, "pagl")    THEN PagLinkSessionClauses(post, o, S) ELSE <<>>)
 =============================================================================
